@@ -297,6 +297,18 @@ def engine_r_t(kw, n_inputs, chunks, pool_stride=1):
             "dylib": os.path.basename(so)}, list(best.values()), modules
 
 
+def _source_for(kw, replay_path):
+    """Source text handing the (last) request of a replay file to a real compiler: the plain
+    attribute / derive form, or a macro_rules! wrapper for None-delimited groups (`dexsim emit-one`)."""
+    exe = kw.get("exe") or os.path.join(os.path.dirname(os.path.dirname(os.path.abspath(__file__))),
+                                        "sim", "target", "release", "dexsim")
+    r = subprocess.run([exe, "emit-one", "--replay", replay_path], env={"PATH": "/usr/bin:/bin"},
+                       capture_output=True, text=True)
+    if r.returncode != 0 or not r.stdout.strip():
+        return None
+    return r.stdout
+
+
 def confirm_in_real_host(kw, classes):
     """Engine N runs the expander on proc-macro2's fallback, outside a compiler. A panic (or a
     message-less compile_error!) it reports is only a verdict if the shipped macro does the same
@@ -314,13 +326,10 @@ def confirm_in_real_host(kw, classes):
         if c not in todo:
             confirmed.append(c)
             continue
-        try:
-            rf = json.load(open(c["replay"]))
-            req = rf["plan"]["reqs"][rf["plan"]["steps"][-1]["req"]]
-        except (OSError, ValueError, KeyError, IndexError):
+        body = _source_for(kw, c["replay"])
+        if body is None:
             confirmed.append(c)
             continue
-        body = (f"#[derive_ex({req['attr']})]\n{req['item']}" if req["mode"] == "attr" else f"#[derive(Ex)]\n{req['item']}")
         src = os.path.join(d, "c.rs")
         open(src, "w").write("#![allow(warnings)]\nmod m0 {\nuse ::derive_ex::{derive_ex, Ex};\n" + body + "\n}\n")
         err = _rustc_metadata(kw["rustc"], so, src, d, timeout=120)
@@ -341,12 +350,13 @@ def confirm_in_real_host(kw, classes):
 def replay_real(kw, path):
     """Replays an engine-R replay file: one module, the shipped dylib, real rustc."""
     rf = json.load(open(path))
-    req = rf["plan"]["reqs"][0]
     d = os.path.join(kw["out"], "engine-r-replay")
     shutil.rmtree(d, ignore_errors=True)
     os.makedirs(d)
     so = build_real_dylib(kw["repo"], os.path.join(kw["out"], "r-target-stable"))
-    body = (f"#[derive_ex({req['attr']})]\n{req['item']}" if req["mode"] == "attr" else f"#[derive(Ex)]\n{req['item']}")
+    body = _source_for(kw, path)
+    if body is None:
+        raise HarnessError(f"{path}: the request cannot be expressed in source text")
     src = os.path.join(d, "r.rs")
     open(src, "w").write("#![allow(warnings)]\nmod m0 {\nuse ::derive_ex::{derive_ex, Ex};\n" + body + "\n}\n")
     err = _rustc_metadata(kw["rustc"], so, src, d, timeout=60)
